@@ -5,8 +5,9 @@
 # Runs inside a private network namespace (the suite binds fixed loopback ports).
 set -u
 SD=$(readlink -f "$1")
-WT=/tmp/sv-wt
-TGT=/tmp/sv-target
+SV=${SV:-/tmp/sv}
+WT=$SV-wt
+TGT=$SV-target
 OUT=$SD/confirm.json
 git -C /repo worktree remove --force $WT >/dev/null 2>&1; rm -rf $WT
 git -C /repo worktree add -q --detach $WT HEAD || exit 2
@@ -39,9 +40,9 @@ else
     esac
   done
 fi
-git status --porcelain | grep -E '^\?\? .*tests/' | sed 's/^?? //' > /tmp/sv-newfiles.txt
-git status --porcelain | grep -E 'tests/.*\.rs$' | awk '{print $2}' >> /tmp/sv-newfiles.txt
-sort -u /tmp/sv-newfiles.txt -o /tmp/sv-newfiles.txt
+git status --porcelain | grep -E '^\?\? .*tests/' | sed 's/^?? //' > $SV-newfiles.txt
+git status --porcelain | grep -E 'tests/.*\.rs$' | awk '{print $2}' >> $SV-newfiles.txt
+sort -u $SV-newfiles.txt -o $SV-newfiles.txt
 }
 run_demo() { # prints PASS/FAIL per demo test target
   local all=PASS
@@ -53,22 +54,22 @@ run_demo() { # prints PASS/FAIL per demo test target
       case $crate in penguin) pkg=rusty-penguin;; *) pkg=$crate;; esac
       sel="-p $pkg"; [ -f "$SD/demo_workspace" ] && sel="--workspace"
       extra=""; [ -f "$SD/demo_release" ] && extra="--release"; grep -q "release" "$SD/DEMO.md" 2>/dev/null && [ "$crate" = penguin-mux ] && grep -q "c09" <<<"$name" && extra="--release"
-      if ! unshare -n bash -c "ip link set lo up; CARGO_TARGET_DIR=$TGT timeout 900 cargo test $sel --test $name --offline $extra -j 8" >/tmp/sv-demo.log 2>&1; then all=FAIL; fi
+      if ! unshare -n bash -c "ip link set lo up; CARGO_TARGET_DIR=$TGT timeout 900 cargo test $sel --test $name --offline $extra -j 8" >$SV-demo.log 2>&1; then all=FAIL; fi
     done
-  done < /tmp/sv-newfiles.txt
+  done < $SV-newfiles.txt
   echo $all
 }
 git apply "$SD/patch.diff"
 # ---- suite with the patch
-unshare -n bash -c "ip link set lo up; CARGO_TARGET_DIR=$TGT timeout 900 cargo test --workspace --no-fail-fast --offline -j 8" > /tmp/sv-suite.log 2>&1
-PASSED=$(grep -E "^test result" /tmp/sv-suite.log | sed -E 's/.* ([0-9]+) passed.*/\1/' | paste -sd+ | bc)
-FAILED_NAMES=$(grep -E "^test .* \.\.\. FAILED" /tmp/sv-suite.log | awk '{print $2}' | sort | paste -sd, )
-COMPILES=true; grep -qE "could not compile|^error\[E" /tmp/sv-suite.log && COMPILES=false
+unshare -n bash -c "ip link set lo up; CARGO_TARGET_DIR=$TGT timeout 900 cargo test --workspace --no-fail-fast --offline -j 8" > $SV-suite.log 2>&1
+PASSED=$(grep -E "^test result" $SV-suite.log | sed -E 's/.* ([0-9]+) passed.*/\1/' | paste -sd+ | bc)
+FAILED_NAMES=$(grep -E "^test .* \.\.\. FAILED" $SV-suite.log | awk '{print $2}' | sort | paste -sd, )
+COMPILES=true; grep -qE "could not compile|^error\[E" $SV-suite.log && COMPILES=false
 apply_demo
 DEMO_WITH=$(run_demo)
 git apply -R "$SD/patch.diff"
 DEMO_WITHOUT=$(run_demo)
-python3 - "$OUT" "$HEAD" "$COMPILES" "${PASSED:-0}" "$FAILED_NAMES" "$DEMO_WITH" "$DEMO_WITHOUT" "$(cat /tmp/sv-newfiles.txt | paste -sd,)" <<'PY'
+python3 - "$OUT" "$HEAD" "$COMPILES" "${PASSED:-0}" "$FAILED_NAMES" "$DEMO_WITH" "$DEMO_WITHOUT" "$(cat $SV-newfiles.txt | paste -sd,)" <<'PY'
 import json,sys
 out,head,comp,passed,failed,dw,dwo,files=sys.argv[1:]
 known={"server::service::tests::test_backend_tls","tests::test_it_works_dns_v4"}
